@@ -385,4 +385,76 @@ theorem frob_self_eq_zero (B : Mat) : frob B B = 0 ↔ ∀ r ∈ B, ∀ x ∈ r,
     · rintro ⟨hr, hB⟩
       rw [ih.mpr hB, (dot_self_eq_zero r).mpr hr]; ring
 
+/-! ### review R2: the update with an arbitrary projection coefficient; the literal form WITH the `tiny` regulariser -/
+
+theorem sameShape_madd_left {X Y Z : Mat} (hy : sameShape X Y = true) (hz : sameShape X Z = true) :
+    sameShape (madd X Y) Z = true := by
+  induction X generalizing Y Z with
+  | nil => cases Y <;> cases Z <;> simp_all [madd]
+  | cons r X ih =>
+    cases Y with
+    | nil => simp at hy
+    | cons s Y =>
+      cases Z with
+      | nil => simp at hz
+      | cons t Z =>
+        simp only [sameShape_cons, Bool.and_eq_true, beq_iff_eq] at hy hz
+        have := ih hy.2 hz.2
+        simp only [madd, List.zipWith_cons_cons, sameShape_cons, length_vadd, Bool.and_eq_true,
+          beq_iff_eq] at this ⊢
+        exact ⟨by omega, this⟩
+
+theorem frob_comm (A B : Mat) : frob A B = frob B A := by
+  induction A generalizing B with
+  | nil => simp
+  | cons r A ih =>
+    cases B with
+    | nil => simp
+    | cons s B => simp [ih B, dot_comm r s]
+
+/-- `A − c·B − α·B`: the shape of the update for ANY projection coefficient `c` -/
+def gradCoef (c : Rat) (A B : Mat) (α : Rat) : Mat := msub (msub A (msmul c B)) (msmul α B)
+
+theorem gradWith_eq_gradCoef (k : InnerKind) (A B : Mat) (α : Rat) :
+    gradWith k A B α = gradCoef (inner k B A / frob B B) A B α := rfl
+
+theorem sameShape_gradCoef {A B : Mat} (c α : Rat) (h : sameShape A B = true) :
+    sameShape (gradCoef c A B α) B = true := by
+  unfold gradCoef
+  have hX := sameShape_msub_left (sameShape_msmul_right c h) h
+  exact sameShape_msub_left (sameShape_msmul_right α hX) hX
+
+/-- the exact orthogonality defect of `A − c·B − α·B`: `<G + α B, B> = <A,B> − c·<B,B>` (zero iff `c` is the projection
+    coefficient, or `B = 0`) -/
+theorem frob_gradCoef_add {A B : Mat} (c α : Rat) (h : sameShape A B = true) :
+    frob (madd (gradCoef c A B α) (msmul α B)) B = frob A B - c * frob B B := by
+  have hG := sameShape_gradCoef c α h
+  have hs : sameShape (madd (gradCoef c A B α) (msmul α B)) B = true :=
+    sameShape_madd_left (sameShape_msmul_right α hG) hG
+  have hX := sameShape_msub_left (sameShape_msmul_right c h) h
+  have hl := sameShape_flat_length h
+  rw [frob_eq_dot_flat hs, flat_madd (sameShape_msmul_right α hG), flat_msmul]
+  unfold gradCoef
+  rw [flat_msub (sameShape_msmul_right α hX), flat_msub (sameShape_msmul_right c h), flat_msmul, flat_msmul,
+    vadd_vsub_cancel _ _ (by simp [hl]), dot_vsub_left _ _ _ (by simp [hl]), dot_smul_left,
+    ← frob_eq_dot_flat h, ← frob_eq_dot_flat (sameShape_refl B)]
+
+theorem unitMat_eq_tiny (unit : Rat → Rat → Rat → Rat) (hunit : ∀ b n t, unit b n t = b / (n + t)) (B : Mat)
+    (nrm tiny : Rat) : unitMat unit B nrm tiny = msmul (1 / (nrm + tiny)) B := by
+  unfold unitMat msmul smul
+  apply List.map_congr_left; intro r _
+  apply List.map_congr_left; intro b _
+  rw [hunit]; ring
+
+/-- the code's literal three lines WITH the regulariser (`unit = B / (‖B‖ + tiny)`): the projection coefficient is
+    `<B,A> / (‖B‖ + tiny)²`, not `<B,A> / ‖B‖²` -/
+theorem engineGradRaw_tiny (unit : Rat → Rat → Rat → Rat) (grad : Rat → Rat → Rat → Rat → Rat → Rat)
+    (hunit : ∀ b n t, unit b n t = b / (n + t)) (hgrad : ∀ a u b p α, grad a u b p α = a - p * u - α * b)
+    (k : InnerKind) (A B : Mat) (α nrm tiny : Rat) (h : sameShape A B = true) :
+    engineGradRaw unit grad k A B α nrm tiny = gradCoef (inner k B A / ((nrm + tiny) * (nrm + tiny))) A B α := by
+  unfold engineGradRaw gradCoef
+  simp only [unitMat_eq_tiny unit hunit, inner_msmul_left]
+  apply matRaw_eq grad hgrad _ _ _ _ _ A B h
+  rw [div_eq_mul_inv, div_eq_mul_inv, mul_inv]; ring
+
 end Adversarial
